@@ -395,3 +395,66 @@ def case_errors(ctx, cfg):
             if not isinstance(e, NotCollinear):
                 ctx.fail(f"crossratio:not-collinear:mixed-collection:3d:{'no-raise' if e is None else type(e).__name__}", "crossratio", {"rows": rows}, "NotCollinear", e if e is not None else r)
                 return
+
+
+# ---------------------------------------------------------------------------------------------------
+# Complex parameters: the points a + x b for Gaussian-integer x on real base lines. Every ordered 4-tuple of distinct
+# parameters from a set that mixes real and non-real ones (so that any subset of the four arguments may be the complex one),
+# as collections and as single calls, in the plain form and seen from a fifth point (round 14, R14a_c).
+
+CPARAMS = [0, 1, -2, 3, 1j, 1 + 2j, -1j, 2 + 1j]
+
+
+def enum_cparams(tier, seed):
+    lines = {
+        1: [((0, 1), (1, 0)), ((2, 1), (-1, 1))],
+        2: [((1, 2, 1), (3, -1, 0)), ((0, 0, 1), (1, 1, 1)), ((2, -1, 1), (1, 0, 2))],
+        3: [((1, 2, 0, 1), (0, 1, -1, 0)), ((0, 0, 0, 1), (1, 2, 3, 1))],
+    }
+    for dim, ls in lines.items():
+        for ab in ls if tier == "thorough" else ls[:2]:
+            for form in ("plain",) + (("from_point",) if dim == 2 else ()):
+                yield (dim, ab, form)
+
+
+@family("C11", "complex_parameters", enum_cparams)
+def case_cparams(ctx, cfg):
+    import geometer as G
+
+    dim, (a, b), form = cfg
+    a, b = np.array(a, dtype=complex), np.array(b, dtype=complex)
+    tuples = list(itertools.permutations(CPARAMS, 4))
+    want = np.array([(t[0] - t[2]) * (t[1] - t[3]) / ((t[0] - t[3]) * (t[1] - t[2])) for t in tuples])
+
+    def arr(x):
+        v = a + x * b
+        return v if abs(complex(x).imag) > 0 else np.real(v)  # real parameters give real-dtype points
+
+    extra = []
+    if form == "from_point":
+        # a real point off the line
+        n_ = np.cross(np.real(a), np.real(b))
+        extra = [G.Point(np.array([n_[0], n_[1], 1.0 if abs(n_[0] * n_[0] + n_[1] * n_[1] + n_[2]) > 1e-9 else 2.0]))]
+    ctx.state(cfg)
+    # collections: position i holds tuple i (complex dtype throughout, as a collection has one dtype)
+    cols = [G.PointCollection(np.array([a + t[k] * b for t in tuples])) for k in range(4)]
+    r, e = ctx.call(G.crossratio, *cols, *extra)
+    ctx.trace(len(tuples))
+    inputs = {"dim": dim, "a": np.real(a), "b": np.real(b), "form": form}
+    if e is not None or np.shape(r) != want.shape:
+        ctx.fail(f"crossratio:complex-parameters:collection:{type(e).__name__ if e is not None else 'shape'}", "crossratio", inputs, "values", e if e is not None else list(np.shape(r)))
+        return
+    bad = [i for i in range(len(tuples)) if not num_eq(r[i], want[i], 1e-9, 1e-9)]
+    if bad:
+        ctx.fail(f"crossratio:complex-parameters:collection:{form}", "crossratio", {**inputs, "parameters": [str(x) for x in tuples[bad[0]]]}, want[bad[0]], r[bad[0]])
+        return
+    # single calls with per-argument dtypes (a real parameter gives a float point, a non-real one a complex point)
+    step = 1 if ctx.tier == "thorough" else 7
+    for i in range(hash((dim, form)) % step, len(tuples), step):
+        t = tuples[i]
+        ctx.tally("complex-first-pair-only" if all(complex(x).imag == 0 for x in t[2:]) and any(complex(x).imag != 0 for x in t[:2]) else "other-mix")
+        v, e = ctx.call(G.crossratio, *[G.Point(arr(x)) for x in t], *extra)
+        ctx.trace()
+        if e is not None or not num_eq(v, want[i], 1e-9, 1e-9):
+            ctx.fail(f"crossratio:complex-parameters:single:{form}", "crossratio", {**inputs, "parameters": [str(x) for x in t]}, want[i], e if e is not None else v)
+            return
